@@ -109,11 +109,11 @@ pub fn check(ctx: &mut Ctx) {
         "no 64-bit seahash collision inside a case".into(),
         "tag+redirect / tag+removeparam / tag+generichide are documented as unsupported and not generated".into(),
     ];
-    let n = ctx.tier.pick(30_000, 1_500_000);
+    let n = ctx.tier.pick(250_000, 2_500_000);
     drive(ctx, "std", n, 600, &decode, &check_case);
-    let n = ctx.tier.pick(1_500, 60_000);
+    let n = ctx.tier.pick(8_000, 100_000);
     drive(ctx, "big", n, 4000, &decode_big, &check_case);
-    let n = ctx.tier.pick(6_000, 200_000);
+    let n = ctx.tier.pick(40_000, 400_000);
     drive(ctx, "hosts", n, 300, &decode_hosts, &check_case_hosts);
 }
 
